@@ -377,7 +377,8 @@ RULE.update({
 ASSUME.update({
     "C14": ["interleavings inside one statement of the accept loop (between testing the flag and calling Accept) are reached only by the real-socket arm",
             "a late client is given 2 ms (fake) / 150 ms (sockets) to be wrongly answered: a slow machine can hide, never fabricate, a violation"],
-    "C15": ["expiries are injected; the wall clock decides only in the real-socket arm, one-sidedly (4 periods held, timeout + 5 s to stop)"],
+    "C15": ["expiries are injected; the wall clock decides only in the real-socket arm, one-sidedly (4 periods held, timeout + 5 s to stop)",
+            "on the fake listener the accept deadline is taken to be the idle timer itself (as in this code base): a deadline armed short of the period is reported as an early stop"],
 })
 CLAIM.update({
     "C14": dict(
